@@ -15,7 +15,7 @@ CHECKS = {
  "C04": ("Hypothesis over (zone|naive|Date, month-end/leap/transition-biased start, mixed-sign calendar amounts) + exhaustive month-day x delta-month table; reference shift model cross-checked with dateutil.relativedelta; metamorphic relations add(-a)==subtract(a), dt-d==dt+(-d)",
          "Generated-input search against a 10-line reference model plus metamorphic relations.", "Reference model = months arithmetic, clamp, native timedelta; landing wall time resolved by the C02 oracle.", "4/C04"),
  "C05": ("Hypothesis over ordered DateTime pairs (same object/name/different zones, fixed offsets, naive, Date) around transitions and folds; integer-instant oracle for length, truncations, negation, abs",
-         "Generated-input search with exact integer oracle (exact below 2^33 s, 64 us tolerance beyond, as stated).", "Trusts zoneinfo/tzdata. Known finding K-C05-1 (same-tzinfo pairs whose wall order differs from their instant order: magnitude forms negated) is excluded by an input predicate plus the pinned wrong value.", "4/C05 and 0.2"),
+         "Generated-input search with exact integer oracle (exact below 2^33 s, 64 us tolerance beyond, as stated).", "Trusts zoneinfo/tzdata. The former known finding K-C05-1 (same-tzinfo pairs whose wall order differs from their instant order: magnitude forms negated) was repaired (4681d75); its predicate now reports a violation.", "4/C05 and 0.2"),
  "C06": ("Exhaustive enumeration of date pairs in leap-containing windows + Hypothesis datetime pairs; validity oracle (ranges + add-back) and Python<->Rust differential",
          "Exhaustive over the enumerated date-pair windows, sampled elsewhere; any decomposition satisfying ranges + add-back is accepted.", "Add-back uses pendulum's own add(), itself checked by C04.", "4/C06"),
  "C07": ("Constructive generation: dates/times rendered by an independent formatter in every ISO form (exhaustive over all dates 1583..9999 in thorough), parsed by both backends and compared with the source value; negative space of impossible dates",
